@@ -21,8 +21,8 @@ from hplsim import core, gen, seams
 PROP = 'C07'
 
 TIERS = {
-    'quick': dict(runs=700, calls=(10, 40), wall=80),
-    'thorough': dict(runs=90000, calls=(10, 60), wall=1500),
+    'quick': dict(runs=700, calls=(10, 40), wall=160),
+    'thorough': dict(runs=16000, calls=(10, 60), wall=2400, marathon=0.004),
 }
 
 PARSER_KINDS = ('specification', 'property', 'property', 'predicate', 'condition', 'expression')
@@ -67,9 +67,21 @@ def outcome_of(fn, text, ctx=None):
     except Exception as e:
         if ctx is not None and getattr(ctx, 'fired', False) and isinstance(e, MemoryError):
             raise
-        return ('err', type(e).__name__, _raise_site(e))
+        return ('err', type(e).__name__, _raise_site(e), category(e))
     d = hashlib.sha1(repr((dump(r), str(r))).encode()).hexdigest()
     return ('ok', d, type(r).__name__)
+
+
+def category(e):
+    """The documented error an exception IS (a subclass of a documented class is that class), else its
+    own class name."""
+    from hpl.errors import HplSanityError, HplSyntaxError
+    for name, cls in (('HplSyntaxError', HplSyntaxError), ('HplSanityError', HplSanityError), ('TypeError', TypeError)):
+        if isinstance(e, cls):
+            return name
+    if isinstance(e, ValueError) and not isinstance(e, UnicodeError):
+        return 'ValueError'
+    return type(e).__name__
 
 
 def _raise_site(e):
@@ -173,7 +185,7 @@ def model(kind, text, need_events=False):
             try:
                 oc = outcome_of(p.parse, text, it)
             except RecursionError:
-                oc = ('err', 'RecursionError', None)
+                oc = ('err', 'RecursionError', None, 'RecursionError')
             data = pickle.dumps((oc, it.events if it is not None else None))
             os.write(wfd, data)
             status = 0
@@ -189,7 +201,7 @@ def model(kind, text, need_events=False):
     os.close(rfd)
     os.waitpid(pid, 0)
     if not chunks:
-        r = (('err', 'ModelTimeout', None), 0 if need_events else None)
+        r = (('err', 'ModelTimeout', None, 'ModelTimeout'), 0 if need_events else None)
     else:
         r = pickle.loads(b''.join(chunks))
     if len(_memo) > 20000:
@@ -326,8 +338,29 @@ def _fault_text(sim, family):
     return '(%s > %s)' % (n1, n2), k
 
 
+def gen_marathon(sim, cfg):
+    """Many distinct short texts on ONE long-lived parser object, then the early ones again: state that
+    needs a long history to build up (a cache that evicts at its 1025th entry, a counter that wraps)."""
+    family, pi = sim.pick('mfamily', (('condition', 4), ('property', 1), ('predicate', 3)))
+    n = sim.pick('mlen', (300, 1100))
+    texts = []
+    for i in range(n):
+        body = '(x > %d)' % i if i % 3 else '(k = %d) and p' % i
+        if i % 97 == 0:
+            body = '(x + True) > %d' % i  # a failing text now and then
+        t = body if family == 'condition' else '{ %s }' % body if family == 'predicate' else 'globally: no a { %s }' % body
+        texts.append({'family': family, 'text': t, 'tag': 'marathon'})
+    calls = [{'parser': pi, 'text': i, 'fault': None} for i in range(n)]
+    calls += [{'parser': pi, 'text': sim.choose('again', min(n, 40)), 'fault': None} for _ in range(30)]
+    return {'texts': texts, 'calls': calls, 'module_calls': [], 'digest_gen': sim.digest()}
+
+
 def gen_scenario(seed, cfg):
     sim = core.Sim(seed)
+    if cfg.get('marathon') and sim.coin('marathon', cfg['marathon']):
+        sc = gen_marathon(sim, cfg)
+        sc['seed'] = seed
+        return sc
     ntexts = sim.randint('ntexts', 4, 9)
     texts = []
     for _ in range(ntexts):
@@ -499,8 +532,8 @@ def execute(sc, stats=None, fresh_parsers=None, trace=None):
         if oc[0] == 'err':
             if oc[2]:
                 sites.add((oc[1], oc[2]))
-            count('err_' + oc[1])
-            if not documented(oc[1], text):
+            count('err_' + oc[3])
+            if not documented(oc[3], text):
                 return _viol('undocumented:' + oc[1], 'parser raised %s (at %s)' % (oc[1], oc[2]), step, sc, kind, text)
         else:
             count('ok_results')
@@ -526,7 +559,7 @@ def execute(sc, stats=None, fresh_parsers=None, trace=None):
             return _viol('timeout', 'entry point did not finish within the CPU budget', len(sc['calls']), sc, kind, tx['text'])
         count('module_calls')
         m_oc, _ev = model(kind, tx['text'])
-        if oc[0] == 'err' and not documented(oc[1], tx['text']):
+        if oc[0] == 'err' and not documented(oc[3], tx['text']):
             return _viol('undocumented:' + oc[1], 'parse_%s raised %s' % (fam, oc[1]), len(sc['calls']), sc, kind, tx['text'])
         if m_oc[1] != 'ModelTimeout' and oc[:2] != m_oc[:2]:
             return _viol('entrypoints-disagree', 'parse_%s gives %s, the parser object gives %s' % (fam, _short(oc), _short(m_oc)), len(sc['calls']), sc, kind, tx['text'])
@@ -600,7 +633,7 @@ def worker(job):
     t0 = time.monotonic()
     prep()
     for idx in job['indices']:
-        if time.monotonic() - t0 > job['wall']:
+        if time.monotonic() > job['deadline']:  # one deadline for the whole batch (CLOCK_MONOTONIC is system-wide)
             stats['runs_skipped_for_time'] = stats.get('runs_skipped_for_time', 0) + 1
             continue
         seed = core.derive(job['master'], PROP, idx)
@@ -721,7 +754,7 @@ def main(argv):
     nruns = max(16, int(cfg['runs'] * scale))
     nproc = int(os.environ.get('HPLSIM_NPROC', '0')) or min(16, os.cpu_count() or 1)
     indices = list(range(args.offset, args.offset + nruns))
-    jobs = [{'cfg': cfg, 'indices': ch, 'master': master, 'wall': cfg['wall']} for ch in core.chunk(indices, nproc * 3)]
+    jobs = [{'cfg': cfg, 'indices': ch, 'master': master, 'deadline': time.monotonic() + cfg['wall']} for ch in core.chunk(indices, nproc * 3)]
     results = core.run_pool(worker, jobs, nproc=nproc, wall_cap=cfg['wall'] + 240)
     stats, found, samples, digests = {}, [], [], []
     sites, abort_sites, transitions = set(), set(), set()
